@@ -249,6 +249,18 @@ class Ctx:
                 return lin_var(("constparam", str(e.b)))
             return None
         if e.k == "cast":
+            from .expr import cast_is_narrowing
+            if cast_is_narrowing(fn, e):
+                from .expr import INT_BITS
+                inner = self.lin(e.a, depth + 1)
+                # usize/u64 -> i64/isize loses only the top bit: a value bounded by a single slice
+                # length (<= isize::MAX) minus a constant survives unchanged
+                if INT_BITS.get(str(e.b)) == 63 and inner is not None:
+                    vs = lin_vars(inner)
+                    if all(isinstance(v, tuple) and v[0] == "len" and 0 < inner[v] <= 1 for v in vs) and \
+                            sum(inner[v] for v in vs) <= 1 and inner.get(1, 0) <= 0:
+                        return inner
+                return lin_var(("expr", deep_repr(e)))     # value-changing (truncating) cast
             return self.lin(e.a, depth + 1)
         if e.k == "local":
             return lin_var(("local", self.name(e.a)))
